@@ -504,7 +504,7 @@ class dictable(Dict):
             return res
         functions = as_list(functions)
         for function in functions:
-            if type(function) == dict:
+            if isinstance(function, dict): ## a Dict / dictattr (e.g. a row of another table) holds conditions too; being callable does not make it a predicate
                 filters.update(function)
             else:
                 f = kwargs_support(function)
@@ -596,7 +596,7 @@ class dictable(Dict):
             return res
         functions = as_list(functions)
         for function in functions:
-            if type(function) == dict:
+            if isinstance(function, dict): ## a Dict / dictattr (e.g. a row of another table) holds conditions too; being callable does not make it a predicate
                 filters.update(function)
             else:
                 f = kwargs_support(function)
